@@ -51,7 +51,7 @@ def gen_pic(rng, n):
 
 
 def gen_doc(rng, depth, maxdepth):
-    s = {'kind': rng.choice(['text', 'text', 'spreadsheet', 'graphics', 'chart', 'presentation']),
+    s = {'kind': rng.choice(['text', 'text', 'spreadsheet', 'graphics', 'chart', 'presentation', 'image', 'text-master']),
          'settings': rng.random() < 0.4,
          'pics': [gen_pic(rng, i) for i in range(rng.choice([0, 0, 1, 1, 2, 3]))],
          'thumb': bytes(rng.randrange(256) for _ in range(6)).hex() if rng.random() < (0.4 if depth == 0 else 0.1) else None,
@@ -124,7 +124,7 @@ def package_parts(ps):
     if ps['settings'] == 'full':
         nonempty.append(u'settings.xml')
     for n in ('content.xml', 'styles.xml', 'meta.xml', 'settings.xml'):
-        if n in parts:
+        if n in parts and not (n == 'meta.xml' and ps.get('nometa')):
             add(n, parts[n], u'text/xml')
     for n, mt, hx in ps['pics']:
         add(n, bytes.fromhex(hx), mt)
@@ -227,8 +227,20 @@ def build(ctx, spec, m=None):
     """run `spec` on the real library; `m` (mirror of an already loaded document) is extended, else created"""
     if m is None:
         id = ctx.nid; ctx.nid += 1
-        m = pk.MDoc(id, pk.KINDS[spec['kind']], spec['settings'])
-        m.real = pk.new_real(spec['kind'], id, spec['settings'])
+        if spec.get('bare'):
+            # OpenDocument(mimetype, add_generator=False): empty office:meta, empty body, no styles, empty settings
+            from odf.opendocument import OpenDocument
+            m = pk.MDoc(id, spec['bare'], False)
+            m.real = OpenDocument(spec['bare'], add_generator=False)
+            m.marker = None
+            if spec.get('mark'):
+                from odf import style
+                m.real.styles.addElement(style.Style(name=u'OBJMARK%dK' % id, family=u'paragraph'))
+                m.real.fontfacedecls.addElement(style.FontFace(name=u'OBJMARK%dK' % id, fontfamily=u'Mark'))
+                m.marker = id
+        else:
+            m = pk.MDoc(id, pk.KINDS[spec['kind']], spec['settings'])
+            m.real = pk.new_real(spec['kind'], id, spec['settings'])
     apply_pics(ctx, m, spec['pics'])
     if spec.get('thumb') is not None:
         m.thumb = bytes.fromhex(spec['thumb'])
@@ -246,6 +258,15 @@ def build(ctx, spec, m=None):
             continue
         m.kids.append(k); m.refs.append(ref)
     return m
+
+
+RESERVED_AT_ROOT = (u'meta.xml', u'mimetype', u'META-INF/manifest.xml', u'/', u'Thumbnails/', u'Thumbnails/thumbnail.png',
+                    u'styles.xml', u'content.xml', u'settings.xml')
+
+
+def reserved_extras(m):
+    """decidable input class of KF-C03-4: the extras of this document that are named like a member save() generates for a package root"""
+    return [fn for fn, _, _ in m.extras if fn in RESERVED_AT_ROOT]
 
 
 def refresh_folders(top):
@@ -293,34 +314,50 @@ def run_case(chk, drv, case, oracle_only=False):
             chk.count('file_name_with_abnormal_tail')      # regression input of fix 31ca861, inside the model again
         bad = list(ctx.bad)
 
-        def save_and_check(what, sfx):
-            raw, warns = pk.save_real(top.real)
+        vias = case.get('via') or ['fileobj', 'fileobj', 'fileobj']
+
+        def save_and_check(what, sfx, node=None, via='fileobj'):
+            node = node or top
+            raw, warns = pk.save_real(node.real, via, ctx.tmp)
+            chk.count('saved_via_' + via)
             arch = pk.read_archive(raw)
             files = {}
             marker_of = {}
-            for x in top.walk():
+            for x in node.walk():
                 files.update(x.files); marker_of[x.id] = x.marker
             if not oracle_only:
-                ans = drv.ask('save ' + ' '.join(top.tokens()))
+                ans = drv.ask('save ' + ' '.join(node.tokens()))
                 if not ans.startswith('ok'):
                     chk.corr(); chk.corr_diff(case, 'archive of %d members' % len(arch.members), ans, 'driver refused the document')
                 else:
                     pk.compare_listing(chk, case, ans[3:], arch, files, marker_of, what)
-            for sig, d in pk.oracle_c03(arch, top, loaded):
-                bad.append((sig + sfx, d))
+            res = pk.oracle_c03(arch, node, loaded and node is top)
+            if node is not top and reserved_extras(node):
+                # KF-C03-4: a sub-document that carries an extra named like a member every package root gets, saved on its own
+                res = [('subdocument-with-reserved-extra-saved-on-its-own', d) if sig in (
+                    'duplicate-member-name', 'manifest-duplicate-entry', 'manifest-lists-missing-file', 'manifest-omits-member',
+                    'root-mediatype') else (sig, d) for sig, d in res]
+            for sig, d in res:
+                bad.append((sig if sig == 'subdocument-with-reserved-extra-saved-on-its-own' else sig + sfx, d))
             return arch
 
-        arch = save_and_check('entry list + manifest of the saved package', '')
+        arch = save_and_check('entry list + manifest of the saved package', '', via=vias[0])
+        # any node of the object tree saved as the root of a package of its own (it stays attached: its folder is not "")
+        subs = [x for x in top.walk() if x is not top]
+        subs.sort(key=lambda x: (-len(x.kids), -len(x.regs), x.id))
+        for x in subs[:3]:
+            save_and_check('entry list + manifest of a sub-document saved on its own', '-of-subdocument-saved-on-its-own', node=x)
+            chk.count('subdocument_saved_on_its_own'); chk.count('subdocument_saved_on_its_own_with_objects', int(bool(x.kids)))
         if case.get('again', True):
             # the same document saved a second time in the same process, then changed (new thumbnail, one more picture in the
             # top document and in its first object) and saved a third time: every save must stand on its own
-            save_and_check('entry list + manifest of the SECOND save of the same document', '-on-second-save')
+            save_and_check('entry list + manifest of the SECOND save of the same document', '-on-second-save', via=vias[1])
             chk.count('saved_twice')
             top.thumb = b'THUMB-3'; top.real.addThumbnail(top.thumb)
             apply_pics(ctx, top, [{'how': 'string', 'data': '0303', 'mt': u'image/png'}])
             if top.kids:
                 apply_pics(ctx, top.kids[0], [{'how': 'named', 'name': u'Pictures/third.png', 'data': '0304', 'mt': u'image/gif'}])
-            arch = save_and_check('entry list + manifest of the save after changing thumbnail and pictures', '-on-third-save')
+            arch = save_and_check('entry list + manifest of the save after changing thumbnail and pictures', '-on-third-save', via=vias[2])
         return bad, top, arch
     finally:
         ctx.close()
@@ -339,7 +376,7 @@ def abnormal_ext(spec):
 
 
 def shape(spec, d=0):
-    return (spec['kind'][0], int(spec['settings']), tuple(p['how'][0] for p in spec['pics']), spec.get('thumb') is not None,
+    return ((spec.get('bare') or spec['kind'])[-12:], int(spec['settings']), tuple(p['how'][0] for p in spec['pics']), spec.get('thumb') is not None,
             tuple(shape(k, d + 1) for k in spec['kids']))
 
 
@@ -367,6 +404,19 @@ def gen_cases(chk, n):
     base['xfiles'] = [(n_, t_, '0a0b') for n_, t_ in EXTRA_FILES[:9]]
     yield {'doc': {'kind': base['kind'], 'settings': False, 'thumb': None, 'pics': tricky_pics(5)[:6], 'kids': [
         {'kind': 'text', 'settings': False, 'thumb': None, 'pics': tricky_pics(3), 'kids': []}]}, 'base': base}
+    # documents made with add_generator=False: empty meta, empty settings, empty body, no styles - every media type, through
+    # every entry point, first save first (the generator element only exists from the first save on)
+    for i, mt in enumerate(pk.BARE_MTS):
+        yield {'doc': {'kind': 'text', 'bare': mt, 'mark': i % 3 == 0, 'settings': False, 'thumb': None, 'kids': [],
+                       'pics': [] if i % 2 else [{'how': 'string', 'data': '01', 'mt': u'image/png'}]},
+               'base': None, 'via': [['fileobj', 'name', 'write'], ['name+suffix', 'write', 'fileobj'], ['write', 'fileobj', 'name+suffix'], ['name', 'name+suffix', 'write']][i % 4]}
+    for i, k in enumerate(sorted(pk.KINDS)):
+        yield {'doc': {'kind': k, 'settings': i % 2 == 0, 'thumb': None, 'kids': [{'kind': 'chart', 'bare': pk.BARE_MTS[i], 'mark': True,
+               'settings': False, 'thumb': None, 'kids': [], 'pics': []}], 'pics': []}, 'base': None,
+               'via': ['name+suffix', 'write', 'name']}
+    # a loaded minimal package: content.xml and styles.xml only, no meta.xml (office:meta stays empty until the first save)
+    mb = gen_package(rng); mb.update({'settings': 'none', 'pics': [], 'thumb': None, 'xfiles': [], 'xdirs': [], 'objects': [], 'nometa': True})
+    yield {'doc': {'kind': mb['kind'], 'settings': False, 'thumb': None, 'pics': [], 'kids': []}, 'base': mb, 'via': ['write', 'name', 'fileobj']}
     nb = gen_package(rng)
     nb['objects'] = [{'num': 1, 'kind': 'text', 'settings': True, 'pics': [(u'Pictures/obj1.png', u'image/png', '010102')], 'nested': True, 'files': True},
                      {'num': 12, 'kind': 'spreadsheet', 'settings': False, 'pics': [], 'nested': True, 'files': True}]
@@ -396,7 +446,7 @@ def gen_cases(chk, n):
         doc = gen_doc(rng, 0, 3)
         if base is not None:
             doc['kind'] = base['kind']; doc['settings'] = False
-        yield {'doc': doc, 'base': base}
+        yield {'doc': doc, 'base': base, 'via': [rng.choice(['fileobj', 'fileobj', 'name', 'name+suffix', 'write']) for _ in range(3)]}
 
 
 def run(chk, replay=None):
@@ -404,7 +454,7 @@ def run(chk, replay=None):
                 'addPictureFromFile / addPicture(file) / addPictureFromString / addPicture(name, type, bytes), thumbnail, settings on/off); '
                 'explicit names and loaded member names include %XX escapes, blanks, + # ? & quotes < >, non-ASCII, case variants, a leading ./ and pairs differing only by such an encoding; '
                 '30% start from load() of a hand-made package with extras, directories, pictures, objects and a shuffled manifest; '
-                'plus the exhaustive matrix picture kind x owner depth 0..3 x thumbnail x settings x from-load (128 cases); '
+                'plus the exhaustive matrix picture kind x owner depth 0..3 x thumbnail x settings x from-load (128 cases); every media type incl. templates made with add_generator=False (empty meta/settings/body/styles); saved through save(file object) / save(name) / save(name, addsuffix) / write(); each case saved three times; up to 3 sub-documents of each tree saved as a package of their own; '
                 'non-trivial = at least one embedded object or picture or extra')
     if replay is not None:
         bad, top, arch = run_case(chk, None, replay['input'], oracle_only=True)
